@@ -124,7 +124,7 @@ def parse_template(path):
             # R40b: a fieldless enum whose (de)serialization is serde's derive: the variant's position in the declaration is its wire value
             pr = BT.findall(rest)
             kv, _ = parse_kv(BT.sub('', rest))
-            items.append(('enumorder', dict(file=kv['file'], enum=kv['enum'], spec=pr[0].split(','), label=pr[1]), i))
+            items.append(('enumorder', dict(file=kv['file'], enum=kv['enum'], spec=pr[0].split(','), label=pr[1], default=kv.get('default'), noorder=('noorder' in _)), i))
         elif word == 'composite':
             # R40: the wire layout of a derive-macro composite, read from its declaration
             pr = BT.findall(rest)
@@ -965,6 +965,7 @@ def generate(repo, template, mode=None, isolate=False):
             a_, e_, ob_ = X.find_typedef(toks_, 'enum', kv_['enum'])
             body_ = [t for t in X.strip_comments(toks_[ob_:e_ + 1]) if t.kind not in ('ws', 'comment')]
             vars_ = []
+            dflt_ = None
             d_ = 0
             for q_, t_ in enumerate(body_):
                 if t_.kind == 'punct' and t_.text in '({[':
@@ -973,6 +974,9 @@ def generate(repo, template, mode=None, isolate=False):
                     d_ -= 1
                 elif d_ == 1 and t_.kind == 'ident' and t_.text[:1].isupper() and body_[q_ - 1].kind == 'punct' and body_[q_ - 1].text in '{,]':
                     vars_.append(t_.text)
+                    # `#[default]` in front of the variant (derive(Default))
+                    if q_ >= 4 and [u.text for u in body_[q_ - 4:q_]] == ['#', '[', 'default', ']']:
+                        dflt_ = t_.text
             spec_ = [x.strip() for x in kv_['spec']]
             pos_ = []
             for v_ in vars_:
@@ -984,12 +988,23 @@ def generate(repo, template, mode=None, isolate=False):
             org_s = dict(kind='src', fn=kv_['enum'], file=kv_['file'], line=toks_[a_].line)
             org_t = dict(kind='tmpl', tline=it[2])
             short_ = ' '.join(re.findall(r'\[C\d\d\.[^\]]+\]', kv_['label']))
+            kebab_of = lambda v_: re.sub(r'(?<!^)(?=[A-Z])', '-', v_).lower()
+            extra_ = []
+            if kv_.get('default'):
+                extra_ = [('pub open spec fn %s_default_variant() -> int { %dint }       // the variant marked #[default]: %s' % (lo_, spec_.index(kebab_of(dflt_)) if dflt_ else -1, dflt_), org_s),
+                          ('pub proof fn lemma_%s_default()' % lo_, org_t),
+                          ('    ensures %s_default_variant() == %d,       // %s the value a field of this type has when it is absent (null-for-default) is the specification\'s default: %s' % (lo_, spec_.index(kv_['default']), short_, kv_['default']), org_t),
+                          ('{}', org_t)]
+            if kv_.get('noorder'):
+                em.emit_lines([('/// enum %s (%s:%d)' % (kv_['enum'], kv_['file'], toks_[a_].line), org_s)] + extra_)
+                types.append(dict(name='enum default ' + kv_['enum'], log=[('R40', 'enum %s: #[default] variant %s read from the declaration' % (kv_['enum'], dflt_), toks_[a_].line)], hash=hashlib.sha256(repr((vars_, dflt_)).encode()).hexdigest()[:16], file=kv_['file'], line=toks_[a_].line, lines=[]))
+                continue
             out_ = [('/// enum %s (%s:%d): the specification\'s value of each variant, in DECLARATION order (serde\'s derive writes a fieldless variant as its index); variants: %s' % (kv_['enum'], kv_['file'], toks_[a_].line, ', '.join(vars_)), org_s),
                     ('pub open spec fn %s_decl_order() -> Seq<int> { seq![%s] }' % (lo_, ', '.join('%dint' % p_ for p_ in pos_)), org_s),
                     ('/// %s' % kv_['label'], org_t),
                     ('pub proof fn lemma_%s_wire_values()' % lo_, org_t),
                     ('    ensures %s_decl_order() =~= Seq::new(%d, |i: int| i),       // %s' % (lo_, len(spec_), short_), org_t),
-                    ('{}', org_t)]
+                    ('{}', org_t)] + extra_
             em.emit_lines(out_)
             types.append(dict(name='enum order ' + kv_['enum'], log=[('R40', 'enum %s: declaration order %s read from the declaration' % (kv_['enum'], vars_), toks_[a_].line)], hash=hashlib.sha256(repr(vars_).encode()).hexdigest()[:16], file=kv_['file'], line=toks_[a_].line, lines=[]))
             continue
